@@ -251,7 +251,7 @@ def _task(task):
 
 TIERS = {
     "quick": {"zero_chunks": 110, "zero_n": 2, "inf_chunks": 16, "inf_n": 2},
-    "thorough": {"zero_chunks": 400, "zero_n": 12, "inf_chunks": 80, "inf_n": 8},
+    "thorough": {"zero_chunks": 400, "zero_n": 8, "inf_chunks": 80, "inf_n": 5},
 }
 
 
